@@ -165,6 +165,10 @@ package syncer
 //@   ensures inv: ghostInv()
 //@   ensures ret_le_last: err == nil ==> uint64(txnID) <= ghost_last
 //@   ensures last_monotone: ghost_last >= old(ghost_last)
+//@   ensures app_monotone: ghost_lastApp >= old(ghost_lastApp)
+//@   ensures app_after: err == nil ==> (ghost_last > uint64(txnID) ==> ghost_lastApp > uint64(txnID))
+//@   ensures changed_means_app: err == nil && localChanged && old(ghost_last) <= uint64(lastTxnID) ==> ghost_lastApp > uint64(lastTxnID)
+//@   ensures quiet: err == nil && ghost_ownTxnRecorded == 0 && ghost_last == old(ghost_last) ==> uint64(txnID) == ghost_last
 //@   ensures ret_below_unpub: err == nil && !localChanged && !s.opt.ReceiveOnly ==> uint64(txnID) < ghost_unpub
 //@   ensures ret_below_uncap: err == nil && !localChanged && !old(s.lc.SchemaTracksChanges) ==> uint64(txnID) < ghost_uncap
 //@   ensures unpub_kept: err == nil && localChanged && !s.opt.ReceiveOnly ==> uint64(lastTxnID) < ghost_unpub
@@ -202,6 +206,8 @@ package syncer
 //@   ensures ret_le_last: err == nil ==> uint64(txnID) <= ghost_last
 //@   ensures ret_ge_entry_last: err == nil ==> uint64(txnID) >= old(ghost_last)
 //@   ensures last_monotone: ghost_last >= old(ghost_last)
+//@   ensures app_monotone: ghost_lastApp >= old(ghost_lastApp)
+//@   ensures app_after: err == nil ==> (ghost_last > uint64(txnID) ==> ghost_lastApp > uint64(txnID))
 //@   ensures not_in_txn: ghost_inTxn == 0
 //@   ensures nil_only_if_stored: err == nil && !s.opt.ReceiveOnly ==> ghost_nstore == old(ghost_nstore) + 1
 //@   ensures ret_below_unpub: err == nil && !s.opt.ReceiveOnly ==> uint64(txnID) < ghost_unpub
@@ -225,6 +231,8 @@ package syncer
 //@   loop 2 invariant I0: uint64(lastSyncedTxnID) <= ghost_last
 //@   loop 2 invariant I1: !s.opt.ReceiveOnly ==> uint64(lastSyncedTxnID) < ghost_unpub
 //@   loop 2 invariant I2: !s.lc.SchemaTracksChanges ==> uint64(lastSyncedTxnID) < ghost_uncap
+//@   loop 2 invariant I3: ghost_last > uint64(lastSyncedTxnID) ==> ghost_lastApp > uint64(lastSyncedTxnID) || lastSyncedTxnID == 0
+//@   loop 3 invariant I3: ghost_last > uint64(lastSyncedTxnID) ==> ghost_lastApp > uint64(lastSyncedTxnID) || lastSyncedTxnID == 0
 //@   loop 3 invariant inv: ghostInv() && ghost_inTxn == 0
 //@   loop 3 invariant I0: uint64(lastSyncedTxnID) <= ghost_last
 //@   loop 3 invariant I1: !s.opt.ReceiveOnly ==> uint64(lastSyncedTxnID) < ghost_unpub
@@ -232,6 +240,12 @@ package syncer
 //@   after_call lmdb.(*Env).Info#1 ghost loc_info := ghost_last
 //@   after_call lmdb.(*Env).Info#1 ghost loc_waitOwn := 0
 //@   after_call syncer.(*InstanceSet).Contains#2 ghost loc_waitOwn := ghost_lastContains
+//@   after_call syncer.(*InstanceSet).Contains#2 ghost loc_prevSynced := uint64(lastSyncedTxnID)
+//@   at_call receiver.(*Receiver).RunOnce#0 assert initial_listing_includes_own: arg2
+//@   at_call syncer.(*Syncer).SendOnce#0 assert no_snapshot_exists_yet: hasDataAtStart && !hasSnapshots
+//@   at_call syncer.(*Syncer).SendOnce#1 assert own_old_snapshot_loaded_first: ghost_loc_waitOwn == 0
+//@   at_call syncer.(*Syncer).SendOnce#1 assert local_change_startup_or_forced: snapshotOverdue || ghost_loc_prevSynced == 0 || ghost_lastApp > ghost_loc_prevSynced
+//@   noswallow
 //@   at_call utils.SleepContext#0 assert idle_published: !s.opt.ReceiveOnly && ghost_loc_info <= uint64(lastSyncedTxnID) ==> ghost_unpub > ghost_loc_info
 //@   at_call utils.SleepContext#0 assert idle_only_waiting_own: ghost_loc_info > uint64(lastSyncedTxnID) ==> ghost_loc_waitOwn == 1
 
